@@ -13,6 +13,7 @@ import (
 	"io"
 	"net"
 	"net/netip"
+	"runtime"
 	"sync"
 	"sync/atomic"
 	"syscall"
@@ -433,7 +434,30 @@ func (k PlanKind) String() string {
 // DialPlan says how the next dial attempt to a remote is answered.
 type DialPlan struct {
 	Kind  PlanKind
-	Delay time.Duration
+	Delay time.Duration // virtual time (only safe when no goroutine can be waiting on a mutex meanwhile)
+	// SpinUs delays the hand-over of an accepted connection by a real-time
+	// busy wait: the TCP handshake has completed (the remote sees the
+	// connection), the dialer returns it a little later whatever happens to
+	// the context meanwhile - as net.Dialer does when a cancellation loses the
+	// race with connect completion.
+	SpinUs int64
+}
+
+var spinSink uint64
+
+// Spin busy-waits for roughly us microseconds of real time without touching
+// the (virtual) clock. Virtual sleeps cannot be used where a goroutine may be
+// waiting for a sync.Mutex: it is not durably blocked, so virtual time cannot
+// advance and the bubble would wedge artificially.
+func Spin(us int64) {
+	x := uint64(us) | 1
+	for i := int64(0); i < us*600; i++ {
+		x = x*6364136223846793005 + 1442695040888963407
+		if i&1023 == 0 {
+			runtime.Gosched()
+		}
+	}
+	atomic.StoreUint64(&spinSink, x)
 }
 
 // DialAttempt records one call of the dial hook.
@@ -558,6 +582,9 @@ func (n *Net) Dial(ctx context.Context, local, remote netip.Addr, port int) (net
 				c.mu.Unlock()
 				return finish(nil, &net.OpError{Op: "dial", Net: "tcp", Err: ctx.Err()})
 			}
+		}
+		if plan.SpinUs > 0 {
+			Spin(plan.SpinUs)
 		}
 		if plan.Delay > 0 {
 			// the TCP handshake has completed (the remote sees the
